@@ -330,19 +330,23 @@ open HdVerif.Aliasing
 /-- nothing was left out of the tables: every converter and both array helpers were abstracted -/
 theorem alias_extraction_complete : allSkipped = [] ∧ 60 ≤ allEntries.length := by decide
 
+set_option maxRecDepth 1000000 in
 private theorem wellformed :
-    (allEntries.all fun e => condsBelowList e.nCond e.prog && decide (0 < e.nCond)) = true := by decide
+    (allEntries.all fun e => condsBelowList e.nCond e.prog && decide (0 < e.nCond)) = true := by decide +kernel
 
 private theorem wf {e : Entry} (he : e ∈ allEntries) : condsBelowList e.nCond e.prog = true ∧ 0 < e.nCond := by
   have := List.all_eq_true.mp wellformed e he
   simpa using this
 
+set_option maxRecDepth 1000000 in
 private theorem table_nocopy_param :
     (allEntries.all fun e => e.hasCopy || neverWritesInputs e) = true := by decide +kernel
 
+set_option maxRecDepth 1000000 in
 private theorem table_copy :
     (allEntries.all fun e => !e.hasCopy || copyLeavesOriginal e) = true := by decide +kernel
 
+set_option maxRecDepth 1000000 in
 private theorem table_nocopy :
     (allEntries.all fun e => !e.hasCopy || rebuildsContainer e || nocopyReturnsSame e) = true := by decide +kernel
 
@@ -380,6 +384,7 @@ theorem nocopy_returns_same (e : Entry) (he : e ∈ allEntries) (hc : e.hasCopy 
   simp only [hc, hq, Bool.not_true, Bool.false_or] at h
   exact nocopyReturnsSame_sound e (wf he).1 h v hv w store ref href
 
+set_option maxRecDepth 1000000 in
 /-- the excluded converter really is different: with `copy=False` it returns a newly allocated container … -/
 theorem nocopy_content_sequence_rebuilds :
     ∃ e ∈ allEntries, rebuildsContainer e = true ∧
@@ -406,9 +411,11 @@ theorem seg_pixel_array_never_written (e : Entry) (he : e ∈ alias_seg_sop) (hc
 /-- every `__init__` of base, content, seg, pm, sc, sr, ko, ann, pr, legacy was abstracted -/
 theorem ctor_extraction_complete : allCtorSkipped = [] ∧ 100 ≤ allCtors.length := by decide +kernel
 
+set_option maxRecDepth 1000000 in
 private theorem ctor_wellformed :
     (allCtors.all fun e => condsBelowList e.nCond e.prog && decide (0 < e.nCond)) = true := by decide +kernel
 
+set_option maxRecDepth 1000000 in
 private theorem table_ctor : (allCtors.all neverWritesInputs) = true := by decide +kernel
 
 /-- **constructors_never_write_arguments** (the first clause of C20 for constructors).  For every `__init__` of the package's
